@@ -623,3 +623,7 @@ _ADDED7 = {'C02': ' Round 10: initial worker counts up to 2^64-1.',
            'C20': ' Round 10: one exchange of 2^63 bytes and more; the metrics registered with a second registry.'}
 for _k, _v in _ADDED7.items():
     PROPS[_k]["rule"] += _v
+
+_ADDED8 = {'C06': ' Round 11: transports that answer after reading only a prefix (0, 1, 9, ... bytes) of the request body - bytes-out is the request body length all the same.'}
+for _k, _v in _ADDED8.items():
+    PROPS[_k]["rule"] += _v
